@@ -2,6 +2,7 @@
 from __future__ import annotations
 
 import os
+import re
 import sys
 import types
 import warnings
@@ -254,8 +255,25 @@ def k9_cases(ctx: vlib.Ctx, n: int):
 # ---------------------------------------------------------------------------
 
 class MT:
-    def __init__(self, py, coq, default=None, hashable=False, classes=()):
+    def __init__(self, py, coq, default=None, hashable=False, classes=(), dom=None):
         self.py, self.coq, self.default, self.hashable, self.classes = py, coq, default, hashable, classes
+        # inside the domain of the default-rendering clause (SchemaDefault.sty_of): decided structurally by the constructors below
+        self.dom = (not re.search("TClass|TNamed|TTyped|TOpaque|TUnion", coq)) if dom is None else dom
+
+
+def pv_of_default(py: str, jsterm: str, coqtype: str) -> str:
+    """the default VALUE as a Core.pv term (the model renders it): leaves carry their canonical text, enum members their name"""
+    if jsterm == "JNull":
+        return "Core.VNone"
+    if coqtype.startswith("TLeaf"):
+        return 'Core.VLeaf "leaf" ' + jsterm[len("JStr "):]
+    if coqtype.startswith("TEnum false") and py != "None":
+        return f'Core.VEnum "enum" "{py.split(".")[-1]}"'
+    t = jsterm.replace("JNull", "Core.VNone").replace("JInt ", "Core.VInt ").replace("JStr ", "Core.VStr ").replace("JBool ", "Core.VBool ")
+    return t
+
+
+ENUM_TAB = '[("A", Core.VStr "a"); ("B", Core.VInt 2); ("X", Core.VInt 1); ("Y", Core.VInt 2)]'
 
 
 def m_scalar(r):
@@ -354,7 +372,7 @@ def m_type(r, depth, avail, allow_any=True, asd=False) -> MT:
         return m_named(r, asd)
     if x < 0.2:
         py, coq, hashable = r.choice(M_WRAPPED)
-        return MT(py, coq, None, hashable)
+        return MT(py, coq, None, hashable, dom=True)
     if depth <= 0 or x < 0.3:
         if avail and r.random() < 0.45:
             c = r.choice(avail)
@@ -366,7 +384,7 @@ def m_type(r, depth, avail, allow_any=True, asd=False) -> MT:
     k = r.choice(["List", "Set", "Dict", "Tuple", "Union", "Optional", "List", "Optional", "Tuple0"])
     if k == "List":
         a = m_type(r, depth - 1, avail, asd=asd)
-        return MT(f"List[{a.py}]", f"TList ({a.coq})", None, False, a.classes)
+        return MT(f"List[{a.py}]", f"TList ({a.coq})", None, False, a.classes, dom=a.dom)
     if k == "Set":
         a = m_scalar(r)
         while not a.hashable:
@@ -374,18 +392,23 @@ def m_type(r, depth, avail, allow_any=True, asd=False) -> MT:
         return MT(f"Set[{a.py}]", f"TSet ({a.coq})")
     if k == "Dict":
         a = m_type(r, depth - 1, avail, asd=asd)
-        return MT(f"Dict[str, {a.py}]", f"TDict ({a.coq})", None, False, a.classes)
+        return MT(f"Dict[str, {a.py}]", f"TDict ({a.coq})", None, False, a.classes, dom=a.dom)
     if k == "Tuple":
         parts = [m_type(r, depth - 1, avail, asd=asd) for _ in range(r.randrange(1, 4))]
-        return MT("Tuple[" + ", ".join(p.py for p in parts) + "]", "TTuple [" + "; ".join(p.coq for p in parts) + "]", None, False,
-                  sum((p.classes for p in parts), ()))
+        dflt = None
+        if all(p.default and p.dom for p in parts):       # a tuple default built from the parts' defaults
+            ch = [r.choice(p.default) for p in parts]
+            dflt = [("(" + "".join(c[0] + ", " for c in ch) + ")",
+                     "TUPLE:" + "; ".join(pv_of_default(c[0], c[1], p.coq) for c, p in zip(ch, parts)))]
+        return MT("Tuple[" + ", ".join(p.py for p in parts) + "]", "TTuple [" + "; ".join(p.coq for p in parts) + "]", dflt, False,
+                  sum((p.classes for p in parts), ()), dom=all(p.dom for p in parts))
     if k == "Tuple0":
         return MT("Tuple[()]", "TTuple []")
     if k == "Optional":
         a = m_type(r, depth - 1, avail, allow_any=False, asd=asd)
         if a.py.startswith(("Optional", "Union")):
             return a
-        return MT(f"Optional[{a.py}]", f"TUnion [{a.coq}; TNone]", [("None", "JNull")], False, a.classes)
+        return MT(f"Optional[{a.py}]", f"TUnion [{a.coq}; TNone]", [("None", "JNull")], False, a.classes, dom=a.dom)
     parts, seen = [], set()
     for _ in range(r.randrange(2, 4)):
         a = m_type(r, depth - 1, avail, allow_any=False, asd=asd)
@@ -460,6 +483,7 @@ def m_family(r):
     lines = ["from dataclasses import dataclass, field", "from typing import *", "from mashumaro import field_options",
              "from mashumaro.config import BaseConfig"] + M_PRELUDE
     coq_classes = []
+    dvals = []
     refs = {}
     tainted = set()
     for i, nm in enumerate(names):
@@ -584,6 +608,13 @@ def m_family(r):
                 body.append(f"    {fname}: {tpy}")
             oq = lambda v: "None" if v is None else f"(Some {coq_str(v)})"
             rdef = "RNone" if not has_default else (f"(RDefault ({jd}))" if jd is not None else "RFactory")
+            if has_default and jd is not None and t.dom:
+                # inside the default-rendering clause: the model gets the VALUE and renders it itself
+                pvt = ("Core.VTuple [" + jd[len("TUPLE:"):] + "]") if jd.startswith("TUPLE:") else pv_of_default(pyd, jd, t.coq)
+                dvals.append(f"({coq_str(nm)}, ({coq_str(fname)}, {pvt}))")
+                rdef = "RFactory"
+            elif jd is not None and jd.startswith("TUPLE:"):
+                raise AssertionError("tuple default outside the domain")
             cflds.append(f"mkrfld {coq_str(fname)} {oq(meta_alias)} {oq(ann_alias)} ({t.coq}) {'true' if is_final else 'false'} {'true' if init else 'false'} {rdef} {oq(descr)} "
                          + (f"(Some ({f_ser[1]}))" if f_ser else "None") + " " + (f"(Some ({f_strat[1]}))" if f_strat else "None"))
         cfg = [f"        {o} = True" for o in ("omit_default", "serialize_by_alias") if r.random() < 0.3]
@@ -643,7 +674,7 @@ def m_family(r):
             color[c] = 2
             return False
         return any(color.get(c, 0) == 0 and dfs(c) for c in sorted(seen))
-    return "\n".join(lines) + "\n", "[" + "; ".join(coq_classes) + "]", names, reach_cyclic
+    return "\n".join(lines) + "\n", "[" + "; ".join(coq_classes) + "], (" + ENUM_TAB + ", [" + "; ".join(dvals) + "])", names, reach_cyclic
 
 
 def m_cases(ctx: vlib.Ctx, n: int):
@@ -727,7 +758,7 @@ def m_cases(ctx: vlib.Ctx, n: int):
 
 
 def coq_part(ctx: vlib.Ctx):
-    br = ctx.theorems("props/C20_schema.vo", THEOREMS + RT_THEOREMS + ["C20_override_noop", "C20_override_covered"], kernels=["K9"])
+    br = ctx.theorems("props/C20_schema.vo", THEOREMS + RT_THEOREMS + ["C20_override_noop", "C20_override_covered", "C20_default_value_is_ref_enc", "C20_default_prerendered", "C20_default_scalars"], kernels=["K9"])
     if br.ok and not ctx.quick():
         rc, out, _ = vlib.run(["timeout", "900", "coqchk", "-silent", "-o"] + vlib.COQ_FLAGS[:9] + ["VerifProps.C20_schema"],
                               cwd=vlib.COQ, timeout=930)
